@@ -208,6 +208,11 @@ def rule_override_inv(facts):
                 continue
             k = (tr, head, it["name"])
             seen.add(k)
+            if it["name"] in ("go_emit_cfg", "go_check_cfg", "go_emit", "go_check"):
+                # the mode-specific forwarders: whoever provides the body, MODE-PAIR judges it (exactly `go_cfg::<Emit|Check>` on self,
+                # or the same mode-specific method on the wrapped parser)
+                r.ob(True)
+                continue
             ok = k in OVERRIDES_ALLOWED
             r.ob(ok)
             if not ok:
